@@ -273,8 +273,16 @@ func (w *memWriter) lines() []string {
 }
 
 type pollRec struct {
-	t  int64
-	id string
+	t    int64
+	step int
+	id   string
+}
+
+type lifeEv struct {
+	start     bool
+	call, ret int // scheduler steps
+	callT     int64
+	retT      int64
 }
 
 func runC20Registry(r *Run, which string) {
@@ -320,7 +328,7 @@ func runC20Registry(r *Run, which string) {
 	mkSupplier := func(id string, val float64) core.MetricSupplier {
 		return func() (float64, bool) {
 			pmu.Lock()
-			polls = append(polls, pollRec{t: s.Now(), id: id})
+			polls = append(polls, pollRec{t: s.Now(), step: s.Step, id: id})
 			pmu.Unlock()
 			return val, true
 		}
@@ -370,14 +378,60 @@ func runC20Registry(r *Run, which string) {
 	var started []ival // [Start call, Stop return]
 	cur := int64(-1)
 	liveEvents := 0
+	var life []*lifeEv
+	two := t.Chance(35, "second-controller")
+	var acts2 []act
+	if two {
+		m := 1 + t.Intn(4, "actions2")
+		for i := 0; i < m; i++ {
+			k := t.Pick([]int{3, 3, 2}, "action2")
+			a := act{kind: k}
+			if k == 2 {
+				a.d = time.Duration(t.Intn(3, "ticks2"))*freq + []time.Duration{0, 0, freq / 2, time.Nanosecond}[t.Intn(4, "offset2")]
+			}
+			acts2 = append(acts2, a)
+		}
+		r.Mixf("  second controller: %v", acts2)
+	}
+	var ctl2 *Task
 	type sent struct {
 		kind int
 		id   string
 		v    float64
 	}
 	var sents []sent
+	if two {
+		ctl2 = s.Go("controller2", func(tk *Task) {
+			for _, a := range acts2 {
+				switch a.kind {
+				case 0:
+					tk.Begin("Start", nil)
+					ev := &lifeEv{start: true, call: s.Step, callT: s.Now(), ret: 1 << 30}
+					life = append(life, ev)
+					reg.Start()
+					ev.ret, ev.retT = s.Step, s.Now()
+					tk.End(nil)
+				case 1:
+					tk.Begin("Stop", nil)
+					ev := &lifeEv{start: false, call: s.Step, callT: s.Now(), ret: 1 << 30}
+					life = append(life, ev)
+					reg.Stop()
+					ev.ret, ev.retT = s.Step, s.Now()
+					tk.End(nil)
+				case 2:
+					tk.Sleep(a.d)
+				}
+			}
+		})
+	}
 	ctl := s.Go("controller", func(tk *Task) {
-		for _, a := range acts {
+		for ai, a := range acts {
+			if two && ai == len(acts)-2 {
+				// the final Stop + quiet period come after the second controller has finished
+				if !tk.WaitFor("controller2-done", func() bool { return ctl2.Done() }) {
+					return
+				}
+			}
 			switch a.kind {
 			case 0:
 				if cur >= 0 {
@@ -387,14 +441,20 @@ func runC20Registry(r *Run, which string) {
 				if cur < 0 {
 					cur = s.Now()
 				}
+				ev := &lifeEv{start: true, call: s.Step, callT: s.Now(), ret: 1 << 30}
+				life = append(life, ev)
 				reg.Start()
+				ev.ret, ev.retT = s.Step, s.Now()
 				tk.End(nil)
 			case 1:
 				if cur >= 0 {
 					liveEvents++
 				}
 				tk.Begin("Stop", nil)
+				ev := &lifeEv{start: false, call: s.Step, callT: s.Now(), ret: 1 << 30}
+				life = append(life, ev)
 				reg.Stop()
+				ev.ret, ev.retT = s.Step, s.Now()
 				tk.End(nil)
 				if cur >= 0 {
 					started = append(started, ival{cur, s.Now()})
@@ -424,7 +484,12 @@ func runC20Registry(r *Run, which string) {
 		}
 	})
 	s.OnEnd = func() {
-		if !ctl.Done() {
+		stuck := ctl
+		if two && !ctl2.Done() {
+			stuck = ctl2
+		}
+		if !stuck.Done() {
+			ctl := stuck
 			op := "?"
 			if ctl.curOp != nil {
 				op = ctl.curOp.Name
@@ -450,26 +515,36 @@ func runC20Registry(r *Run, which string) {
 	ps := append([]pollRec(nil), polls...)
 	pmu.Unlock()
 	for _, p := range ps {
-		ok := false
-		for _, iv := range started {
-			if p.t >= iv.from && p.t <= iv.to {
-				ok = true
+		// a poll is illegal iff every Start called before it was followed by a Stop that began after that
+		// Start had returned and that itself returned before the poll (scheduler step order)
+		legal := false
+		anyStart := false
+		for _, sv := range life {
+			if !sv.start || sv.call > p.step {
+				continue
 			}
-		}
-		if !ok {
-			lastStop := int64(-1)
-			for _, iv := range started {
-				if iv.to <= p.t && iv.to > lastStop {
-					lastStop = iv.to
+			anyStart = true
+			cancelled := false
+			for _, tv := range life {
+				if !tv.start && tv.call > sv.ret && tv.ret < p.step {
+					cancelled = true
 				}
 			}
+			if !cancelled {
+				legal = true
+			}
+		}
+		if !legal {
 			key := which + "/never-started"
-			if lastStop >= 0 {
+			if anyStart {
 				key = which + "/after-stop"
 			}
-			r.Fail("polled-outside-start-stop", key, "gauge %s was polled at t=%s, outside every [Start, Stop] interval %v (last Stop returned at %s)", p.id, fmtDur(p.t), started, fmtDur(lastStop))
+			r.Fail("polled-outside-start-stop", key, "gauge %s was polled at t=%s (step %d) although every Start issued before had been followed by a completed Stop (or none was issued); Start/Stop calls [start? call-step ret-step]: %s", p.id, fmtDur(p.t), p.step, lifeString(life))
 			return
 		}
+	}
+	if two {
+		started = nil // interval-based rate accounting only for a single controller
 	}
 	// rate per interval and gauge
 	for _, iv := range started {
@@ -564,4 +639,16 @@ func truncate(s string, n int) string {
 		return s[:n] + "..."
 	}
 	return s
+}
+
+func lifeString(life []*lifeEv) string {
+	out := ""
+	for _, e := range life {
+		k := "Stop"
+		if e.start {
+			k = "Start"
+		}
+		out += fmt.Sprintf("[%s %d..%d] ", k, e.call, e.ret)
+	}
+	return out
 }
